@@ -520,6 +520,10 @@ class C09(Property):
             'with every separator kind and maxsplit -1..5; lengths 0..8 x size -1..9 x count x fill for '
             'chunked/windowed; all lists up to 5 over 4 aliasing items for unique/redundant/bucketize/partition; '
             'all chunk_ranges parameters up to 13/7/9; then seeded random larger cases with 1/1.0/True aliases. '
+            'Round 3b: lists of whole-string items (words; a str separator / strip value is one item value), a few '
+            'long inputs (63 .. 2049 items) per helper, callable objects whose truth value is False as key / sep / '
+            'transform / filter; a call with INVALID parameters is outside the domain (no model line, the oracle '
+            'only rejects a hang, a changed input and a list form differing from the *_iter form). '
             'Non-trivial = valid parameters and an output with at least two groups/chunks/windows/ranges, or '
             'something actually stripped / deduplicated; distinct = distinct (op, kind, items, parameters).')
     ASSUMPTIONS = [
@@ -527,10 +531,12 @@ class C09(Property):
         'inputs are finite; infinite iterators are outside the property',
         'key / value_transform / key_filter callables are pure and drawn from a table both sides can evaluate',
         'chunk_ranges with overlap_size >= chunk_size (zero or negative step) is outside the model and not judged',
-        'windowed size 0, non-positive chunk sizes and negative counts / maxsplit are "invalid parameters": the '
-        'model reproduces them but the oracle demands nothing there; likewise a float count (rejected by '
-        'itertools.islice), a float window size (rejected by itertools.tee) and a str separator that is not a '
-        'single character (it equals no item: nothing is split)',
+        'windowed size 0, non-positive chunk sizes, negative counts / maxsplit, a float count (today rejected by '
+        'itertools.islice), a float window size (today rejected by itertools.tee), a str separator of a str input '
+        'that is not a single character, a bytes object as separator, invalid chunk_ranges numbers and a key list '
+        'of the wrong length are "invalid parameters": the statement quantifies over valid parameters, so nothing '
+        'is demanded and nothing is compared there (which exception, raised when, or whether a later version '
+        'accepts the call is left open)',
         'numeric arguments are ints, bools or floats with fractional part .0 / .5 (int() truncates toward zero); '
         'chunk sizes above sys.maxsize (rejected by itertools.islice) are not generated',
     ]
